@@ -34,9 +34,10 @@ LEVEL_TEXT = ("Randomised operation scripts (<= 40 ops, small id universes to fo
 LEVEL_NOTE = ("Trusted: CPython sqlite3/asyncio, pydantic, the model in this file. Postgres store not exercised (no asyncpg). "
               "Deletes without any filter are outside the statement and only reported as an informational counter.")
 DESIGN_REF = "§5 C24"
-RULE = ("case = one operation script run on 4 store configurations; distinct = hash of (ops kinds, filter masks used, eviction "
-        "decisions observed); non-trivial = >= 3 mutations and >= 1 non-empty query result and (for retention) >= 1 eviction "
-        "decision point (terminal count above max_completed or a repeated terminal update)")
+RULE = ("case = one operation script run on 4 store configurations (memory uncapped, sqlite, sqlite single-connection, memory "
+        "with max_completed in {0,1,2,3,5}); distinct = hash of (operation kinds and statuses, filter masks used, eviction "
+        "decisions observed on the capped store, id pool); non-trivial = >= 3 effective mutations (upsert, status update that "
+        "hit a handler, delete that removed >= 1 handler)")
 REQUIRED_REACH = ["query_checked", "query_nonempty_checked", "empty_list_filter_checked", "is_idle_filter_checked",
                   "all_masks_checked", "delete_checked", "delete_nonempty_checked", "status_update_checked",
                   "stores_equal_checked", "sqlite_single_conn_checked", "retention_checked", "retention_eviction_checked",
@@ -54,7 +55,7 @@ STATUSES = ("running", "completed", "failed", "cancelled")
 ID_POOLS = [
     ["h0", "h1", "h2", "h3", "h4", "h5"],
     ["h0", "h1", "h2", "h3", "h4", "h5", "h6", "h7", "h8", "h9"],
-    ["h1", "H1", "h1 ", "", "1", "01", "1.0", "a'b", 'a"b', "%", "_", "hé", "h x", "NULL", "a;--"],
+    ["h1", "H1", "h1 ", "", "1", "01", "1.0", "a'b", 'a"b', "%", "_", "h\u00e9", "h\u2028x", "NULL", "a;--"],
 ]
 WF_POOL = ["wfA", "wfB", "wf a", "", "WFA", "w'f"]
 FILTERS = ["handler_id_in", "run_id_in", "workflow_name_in", "status_in", "is_idle"]
@@ -64,7 +65,7 @@ def plan(tier, seed):
     if tier == "quick":
         n, per = 16, 70
     else:
-        n, per = 64, 900
+        n, per = 64, 700
     return [{"seed": seed * 1000 + i, "n": per, "tier": tier} for i in range(n)]
 
 
